@@ -285,13 +285,13 @@ impl Property for C07 {
         for p in &paths {
             args.push(p.clone().into());
         }
-        let out = run_s4(RunSpec { args, tmpdir: Some(&tmp), timeout: std::time::Duration::from_secs(120), ..Default::default() });
+        let out = run_s4(RunSpec { args, tmpdir: Some(&tmp), timeout: std::time::Duration::from_secs(120), cpu_limit: Some(std::time::Duration::from_secs(20)), ..Default::default() });
         let ctx = format!("damaged={} ({} bytes) neighbours={} position={}", desc, dsize, npaths.len(), pos);
         if out.timed_out {
             if out.deadlocked {
                 return Outcome::fail("hang", format!("{}: the process stopped making progress", ctx));
             }
-            return Outcome::fail("hang-busy", format!("{}: still running (and consuming CPU) after 120 s", ctx));
+            return Outcome::fail("hang-busy", format!("{}: still running (and consuming CPU) after {}", ctx, if out.cpu_exceeded { "20 s of CPU time" } else { "120 s" }));
         }
         if out.signal.is_some() {
             return Outcome::fail("fatal-signal", format!("{}: killed by signal {:?}; stderr={}", ctx, out.signal, esc_trunc(&out.stderr, 600)));
